@@ -229,6 +229,47 @@ def explore_block(acc, cfg, depth, coarse=False):
         acc.sample(dict(block=cfgname, states=st.states, transitions=st.transitions, depth=depth))
 
 
+def explore_sparse_wide(acc):
+    """sparse blocks over longer runs of addresses holding pairwise different values: every (address, count <= 12) window
+    read, written and read again (order of the values is part of the answer)"""
+    for keys in (list(range(3, 41)), list(range(0, 20)) + list(range(24, 40)), [k for k in range(0, 64) if k % 7]):
+        cfgname = 'sparse/wide/%d-%d/%d' % (keys[0], keys[-1], len(keys))
+        for form in ('dict', 'dict-descending'):
+            order = keys if form == 'dict' else list(reversed(keys))
+            for a in range(max(0, keys[0] - 1), keys[-1] + 2):
+                for c in range(1, 13):
+                    model = dict((k, 5000 + 3 * k) for k in keys)
+                    blk = ModbusSparseDataBlock(dict((k, model[k]) for k in order))
+                    inside = all((a + i) in model for i in range(c))
+                    w = dict(block=cfgname + ('' if form == 'dict' else '/descending'), address=a, count=c)
+                    acc.inc('transitions', 3)
+                    try:
+                        v = bool(blk.validate(a, c))
+                    except Exception as e:   # noqa
+                        acc.violation('C18/sparse/validate/raise:%s/wide' % type(e).__name__, w, repr(e)[:80], cfgname)
+                        continue
+                    if v != inside:
+                        acc.violation('C18/sparse/validate/%s/wide' % ('accepts-outside' if v else 'rejects-inside'), w, 'validate(%d, %d) = %s' % (a, c, v), cfgname)
+                    if not inside:
+                        continue
+                    try:
+                        got = list(blk.getValues(a, c))
+                        if got != [model[a + i] for i in range(c)]:
+                            acc.violation('C18/sparse/getValues/wrong-values/wide', w, 'getValues(%d, %d) = %r' % (a, c, got[:6]), cfgname)
+                        new = [9000 + i for i in range(c)]
+                        blk.setValues(a, list(new))
+                        for i, x in enumerate(new):
+                            model[a + i] = x
+                        if dict(list(blk)) != model:
+                            acc.violation('C18/sparse/setValues/wrong-cells/wide', w, 'cells after setValues(%d, %r...) differ from the model' % (a, new[:3]), cfgname)
+                        got = list(blk.getValues(a, c))
+                        if got != new:
+                            acc.violation('C18/sparse/getValues/wrong-values/wide', w, 'after the write getValues(%d, %d) = %r' % (a, c, got[:6]), cfgname)
+                    except Exception as e:   # noqa
+                        acc.violation('C18/sparse/getValues/raise:%s/wide' % type(e).__name__, w, repr(e)[:80], cfgname)
+        acc.add('nontrivial', cfgname)
+
+
 # ---------------------------------------------------------------- slave context
 def explore_slave(acc, zero_mode, shared, global_default=False, explicit=True, switched=False):
     """global_default: the process-wide Defaults.ZeroMode while the context is built; explicit: zero_mode is passed to the
@@ -364,7 +405,7 @@ def explore_slave(acc, zero_mode, shared, global_default=False, explicit=True, s
 
 
 # ---------------------------------------------------------------- server context
-IDS = [-1, 0, 1, 2, 247, 248, 255]
+IDS = [-1, 0, 1, 2, 247, 248, 255, 256, 257]
 
 
 class _Ctx(object):
@@ -557,6 +598,9 @@ def shard(args):
     if what == 'factories':
         explore_factories(acc)
         return acc
+    if what == 'sparse-wide':
+        explore_sparse_wide(acc)
+        return acc
     if what == 'block':
         explore_block(acc, args[1], args[2])
     elif what == 'slave':
@@ -574,7 +618,7 @@ def run(tier, seed):
     # argument (the context takes the default)
     shards += [('slave', z, False, True, True) for z in (False, True)] + [('slave', g, False, g, False) for g in (False, True)]
     shards += [('slave', z, False, False, True, True) for z in (False, True)]
-    shards += [('factories',)]
+    shards += [('factories',), ('sparse-wide',)]
     sdepth = 3 if tier == 'quick' else 4
     shards += [('server', True, (), sdepth)] + [('server', False, ids, sdepth) for ids in ((), 'no-arg', (1,), (1, 2), (0, 247))]
     acc = par.run_shards(shard, shards)
@@ -595,6 +639,10 @@ def run(tier, seed):
 
 def replay(w):
     acc = Acc()
+    if 'block' in w and 'sparse/wide' in w['block']:
+        explore_sparse_wide(acc)
+        vs = [v for v in acc.violations if v['witness'] == w]
+        return bool(vs), '\n'.join(v['msg'] for v in vs) or 'no violation'
     if 'block' in w and ('create' in w['block'] or 'default' in w['block']):
         explore_factories(acc)
         vs = [v for v in acc.violations if v['witness'] == w]
